@@ -78,6 +78,7 @@ func execSweep(tpl types.Template, data map[string]any, w *sweepWriter) (res run
 	res = runResult{out: w.sb.String(), log: strings.Join(l.entries, ",")}
 	if err != nil {
 		res.class = renderClass(err)
+		res.msg = err.Error()
 	}
 	return res
 }
@@ -178,6 +179,7 @@ type runResult struct {
 	out   string
 	class string // "" = ok
 	log   string
+	msg   string // the error's text: compared only between two runs of the implementation itself (C16), never with the model
 }
 
 func (r runResult) line() string {
@@ -254,6 +256,7 @@ func execOne(tpl types.Template, run tmplRun) (res runResult) {
 	res = runResult{out: w.sb.String(), log: strings.Join(l.entries, ",")}
 	if err != nil {
 		res.class = renderClass(err)
+		res.msg = err.Error()
 	}
 	return res
 }
@@ -585,6 +588,9 @@ func genTmplCase(r *Rng, out *outFiles) {
 			fresh := execOne(tpl, run)
 			if fresh.line() != rs[i].line() && c16 == "" {
 				c16 = fmt.Sprintf("run %d on a used template object gives %s, on a fresh object %s", i, rs[i].line(), fresh.line())
+			}
+			if fresh.msg != rs[i].msg && c16 == "" { // the error is part of the result: same templates, same data, same error
+				c16 = fmt.Sprintf("run %d: the same data gives the error %q on the used object and %q on a fresh one", i, rs[i].msg, fresh.msg)
 			}
 			// the package-level helpers RenderToString / RenderToBytes are Execute into a buffer: same output, same error
 			if i == 0 && run.budget < 0 && c16 == "" {
